@@ -23,6 +23,25 @@ JOBS = {
     "lls": ("Gen_lls.v", lambda repo: __import__("tools.translate_lls", fromlist=["translate_lls"]).translate_lls(repo)),
     # Bloch simulators (sim.py, optcont.blochsim) and ab2rf (slr.py) over FOps + trig oracle of model/Bloch.v (C19)
     "bloch": ("Gen_bloch.v", lambda repo: __import__("tools.translate_bloch", fromlist=["translate_bloch"]).translate_bloch(repo)),
+    # wrapper layer of sigpy/interp.py (interpolate / gridding, defaults, dispatch tables, _kaiser_bessel_kernel) over model/Interp.v + model/InterpW.v (C07)
+    "interpw": ("Gen_interpw.v", lambda repo: __import__("tools.translate_interpw", fromlist=["translate_interpw"]).translate_interpw(repo)),
+    # CPU paths of sigpy/conv.py (parameters, _convolve and its two adjoints, public wrappers) over model/Conv.v (C08)
+    "conv": ("Gen_conv.v", lambda repo: __import__("tools.translate_conv", fromlist=["translate_conv"]).translate_conv(repo)),
+    # resize / flip / circshift / downsample / upsample (+ _expand_shapes, _normalize_axes) of sigpy/util.py over model/Rearrange.v (C09)
+    "util": ("Gen_util.v", lambda repo: __import__("tools.translate_util", fromlist=["translate_util"]).translate_util(repo)),
+    # get_wavelet_shape / fwt / iwt (sigpy/wavelet.py) and Wavelet / InverseWavelet __init__/_apply (linop.py) over the PyWavelets
+    # environment of model/WaveletPywt.v, tied to model/Wavelet.v + model/OpaqueWavelet.v (C10)
+    "wavelet": ("Gen_wavelet.v", lambda repo: __import__("tools.translate_wavelet", fromlist=["translate_wavelet"]).translate_wavelet(repo)),
+    # sigpy.mri.linop.Sense (tseg = comm = None) as a function into the deep embedding, and what SenseRecon / L1WaveletRecon /
+    # TotalVariationRecon (sigpy/mri/app.py) hand to LinearLeastSquares, over model/Sense.v (sense_factory) + model/SenseRecon.v (C16)
+    "sense": ("Gen_sense.v", lambda repo: __import__("tools.translate_sense", fromlist=["translate_sense"]).translate_sense(repo)),
+    # sigpy.mri.app.EspiritCalib at one voxel (__init__ incl. forward / normalize, PowerMethod set-up via Gen_alg's gen_pm_*, _output)
+    # over model/Espirit.v + model/EspiritCalib.v (C17)
+    "espirit": ("Gen_espirit.v", lambda repo: __import__("tools.translate_espirit", fromlist=["translate_espirit"]).translate_espirit(repo)),
+    # _poisson (numba kernel) and poisson of sigpy/mri/samp.py over POps / the draw stream of model/Poisson.v + model/PoissonFront.v (C18)
+    "poisson": ("Gen_poisson.v", lambda repo: __import__("tools.translate_poisson", fromlist=["translate_poisson"]).translate_poisson(repo)),
+    # sigpy/fourier.py: fft / ifft / _fftc / _ifftc over model/Fourier.v (C05) and nufft / nufft_adjoint / helpers over model/Nufft.v, NufftExt.v (C06)
+    "fourier": ("Gen_fourier.v", lambda repo: __import__("tools.translate_fourier", fromlist=["translate_fourier"]).translate_fourier(repo)),
 }
 try:
     from tools import translate_more
